@@ -209,6 +209,9 @@ where
     if r.custom.is_some() || !m.alt_users.is_empty() || m.user_built {
         return None; // user-constructed error (A7)
     }
+    if m.from_nested {
+        return None; // raised inside a nested input: span and `found` are in the inner input's terms (A6)
+    }
     // token index whose offset equals the span start
     let tok_at = (0..=buf.n()).find(|&i| span_start::<I>(buf, i) == r.span.0);
     let expect = match tok_at {
